@@ -182,7 +182,7 @@ def coq_eval_bools(ctx, name, imports, items, chunk=300, timeout=900, _depth=0):
         b = _parse_bools(out) if rc == 0 else None
         if b is None or len(b) != n:
             sub = items[k * chunk:k * chunk + n]
-            if n > 1 and _depth < 12:      # isolate the items that cannot be evaluated
+            if n > 1 and _depth < 4:      # isolate the items that cannot be evaluated
                 h = (n + 1) // 2
                 res.extend(coq_eval_bools(ctx, '%s_r%d_%da' % (name, _depth, k), imports, sub[:h], chunk=h, timeout=timeout, _depth=_depth + 1))
                 res.extend(coq_eval_bools(ctx, '%s_r%d_%db' % (name, _depth, k), imports, sub[h:], chunk=max(1, n - h), timeout=timeout, _depth=_depth + 1))
